@@ -5,7 +5,9 @@ package main
 // per batcher.
 
 import (
+	"fmt"
 	"sync"
+	"time"
 
 	"verif/harness/batchdrv"
 	"verif/harness/hmain"
@@ -18,6 +20,7 @@ type job struct {
 	stream string
 	cs     hx.Sx
 	obs    hx.Sx
+	tm     batchdrv.Timing
 }
 
 func gen(c *hmain.Ctx) {
@@ -96,7 +99,75 @@ func gen(c *hmain.Ctx) {
 		nextID = 0
 		add("stop-in-window", hx.L(cfgSx(r.Range(1, 3), 1, 0, 20, false, 0, false, 0, 0), hx.L(mkAdder(r.Range(1, 3), 10, false, false)), hx.L(), hx.L(hx.I(2), hx.I(r.Intn(3)))))
 	}
+	// 6. flush time-out at or above the 100 ms heartbeat (production defaults: 200 ms .. 1 s; the older streams stay below
+	//    80 ms, where the very first tick after the Add already finds the batch due).  Here a partly filled batch is looked at
+	//    by 2..4 ticks (label NotReady with n > 0 and elapsed <= timeout) before the tick that seals it with status 2.
+	//    A regression that restarts batch.startTime on every tick / every getBatch of a batch in progress, or compares against
+	//    the heartbeat period instead of the time-out, passes the older streams and fails here: NotReady with elapsed > timeout
+	//    (LTS guard) or never a Seal (LStuck 3, monitor m_not_stuck); oracle 'idle-flush-lag' bounds the wait from above
+	for i := 0; i < 14*c.Scale; i++ {
+		nextID = 0
+		add("idle-flush-slow", hx.L(cfgSx(r.Range(1, 3), r.Range(5, 9), 0, r.Range(100, 400), false, 0, false, 0, 0), hx.L(mkAdder(r.Range(1, 4), 10, false, false)), hx.L(), hx.L(hx.I(0), hx.I(0))))
+	}
+	//    directed "two ticks": one or two events added 0 / 30 / 60 / 120 ms after the start, time-outs 150 / 250 / 350 ms
+	for _, flush := range []int{150, 250, 350} {
+		for _, wait := range []int{0, 30, 60, 120} {
+			nextID = 0
+			adder := hx.L(hx.L(hx.I(1), hx.I(wait)), hx.L(hx.I(0), hx.I(1), hx.I(3), hx.I(0)), hx.L(hx.I(1), hx.I(wait/2)), hx.L(hx.I(0), hx.I(2), hx.I(4), hx.I(0)))
+			add("two-ticks", hx.L(cfgSx(1+wait%2, 5, 0, flush, false, 0, false, 0, 0), hx.L(adder), hx.L(), hx.L(hx.I(0), hx.I(0))))
+		}
+	}
+	// 7. the MaintenanceFn hook (batch.go work(): after commitBatch, once MaintenanceInterval has passed; elasticsearch,
+	//    clickhouse, ... set it) on random multi-worker cases: it runs in the worker between two batches and sleeps 1 ms.
+	//    A regression that calls it inside the commit section or before commitBatch shows as a label order the LTS rejects
+	//    only if it reorders commits; the stream mainly keeps the hook path executed (it was never set by any driver)
+	for i := 0; i < 20*c.Scale; i++ {
+		nextID = 0
+		na := r.Range(1, 3)
+		var adders []hx.Sx
+		for a := 0; a < na; a++ {
+			adders = append(adders, mkAdder(r.Range(3, 20), 30, true, r.Chance(1, 3)))
+		}
+		add("maintenance", hx.L(cfgSx(r.Range(1, 4), r.Range(1, 4), 0, r.Range(5, 40), false, 0, false, 0, 0), hx.L(adders...), mkPlan(30, 10, nofail),
+			hx.L(hx.I(0), hx.L(hx.I(0), hx.I(0), hx.I(0), hx.I(r.Range(1, 20))))))
+	}
 	runJobs(c, jobs)
+}
+
+// stats + the timing oracle of "bounded staleness": a batch sealed by time-out was sealed within FlushTimeout + one heartbeat
+// period (100 ms) + 2 s of scheduling slack after its first Add (startTime is set no later than the first Add)
+func timing(c *hmain.Ctx, j *job) {
+	flush := time.Duration(j.tm.Cfg.FlushMs) * time.Millisecond
+	for _, d := range j.tm.FlushLag {
+		c.W.Oracle("idle-flush-lag", d <= flush+100*time.Millisecond+2*time.Second, fmt.Sprintf("sealed by time-out %v after the first Add, flush time-out %v; case %s", d, flush, hx.String(j.cs)))
+	}
+	if j.tm.Cfg.FlushMs >= 100 {
+		c.W.Count("flush time-out >= 100 ms heartbeat")
+	}
+	seen, tick := 0, false
+	for _, l := range hx.Items(j.obs) {
+		o := hx.Items(l)
+		if hx.Int(o[0]) != 0 {
+			continue
+		}
+		switch k := hx.Int(o[1]); {
+		case k == 11:
+			tick = true
+			continue
+		case k == 2:
+			continue
+		case k == 15 && hx.Int(o[2]) > 0 && tick: // a heartbeat tick found a non-empty batch not yet due
+			seen++
+		case k == 3: // Seal
+			if hx.Int(o[4]) == 2 && seen >= 2 {
+				c.W.Count("batch sealed by time-out after >= 2 ticks had found it not yet due")
+			}
+			seen = 0
+		case k == batchdrv.LMaint && hx.Int(o[2]) == 1:
+			c.W.Count("maintenance hook ran")
+		}
+		tick = false
+	}
 }
 
 func runJobs(c *hmain.Ctx, jobs []*job) {
@@ -109,17 +180,18 @@ func runJobs(c *hmain.Ctx, jobs []*job) {
 		go func() {
 			defer wg.Done()
 			defer func() { <-sem }()
-			j.obs = batchdrv.RunCase(j.cs)
+			j.obs, j.tm = batchdrv.RunCaseT(j.cs)
 		}()
 	}
 	wg.Wait()
 	for _, j := range jobs {
+		timing(c, j)
 		c.W.Case(j.stream, 0, j.cs, j.obs, true)
 	}
 }
 
 func main() {
 	hmain.Run(&hmain.Prop{ID: "C08",
-		Rule: "each case = (batcher config, per-goroutine Add/sleep scripts, OutFn delay plan, Stop placement) run on the real Batcher; observable = the full label trace (verifTrace sites inside the critical sections + Controller.Commit calls + recovered panics). Every case is non-trivial (>= 1 Add); distinct = distinct case text.",
+		Rule: "each case = (batcher config, per-goroutine Add/sleep scripts, OutFn delay plan, Stop placement) run on the real Batcher; observable = the full label trace (verifTrace sites inside the critical sections + Controller.Commit calls + recovered panics). Streams idle-flush-slow / two-ticks: flush time-out 100..400 ms (>= the 100 ms heartbeat); maintenance: the stop tuple's arg is (arg 0 0 maintenanceMs). Every case is non-trivial (>= 1 Add); distinct = distinct case text.",
 		Gen: gen, Exec: exec})
 }
